@@ -74,6 +74,7 @@ These selectors are available:
 """
 
 import numbers
+import os
 import warnings
 from abc import abstractmethod
 
@@ -85,6 +86,11 @@ from sklearn.base import BaseEstimator, MetaEstimatorMixin
 from sklearn.feature_selection._base import SelectorMixin
 from sklearn.utils import check_array, check_random_state, check_X_y, safe_mask
 from sklearn.utils.validation import FLOAT_DTYPES, as_float_array, check_is_fitted
+
+if os.environ.get("SKMATTER_VERIF") == "1":  # verification trace hooks, off by default
+    from . import _verif_trace
+else:
+    _verif_trace = None
 
 from .utils import (
     X_orthogonalizer,
@@ -259,6 +265,9 @@ class GreedySelector(SelectorMixin, MetaEstimatorMixin, BaseEstimator):
         else:
             self._init_greedy_search(X, y, n_iterations)
 
+        if _verif_trace is not None:
+            _verif_trace.begin(self, X, warm_start, n_iterations)
+
         n_iterations -= self.n_selected_
 
         for n in self.report_progress_(range(n_iterations)):
@@ -280,9 +289,13 @@ class GreedySelector(SelectorMixin, MetaEstimatorMixin, BaseEstimator):
 
                 self.selected_idx_ = self.selected_idx_[:n]
                 self._postprocess(X, y)
+                if _verif_trace is not None:
+                    _verif_trace.post(self, X, y, True)
                 return self
 
         self._postprocess(X, y)
+        if _verif_trace is not None:
+            _verif_trace.post(self, X, y, False)
         return self
 
     def transform(self, X, y=None):
@@ -438,12 +451,18 @@ class GreedySelector(SelectorMixin, MetaEstimatorMixin, BaseEstimator):
 
             if self.score_threshold_type == "absolute":
                 if scores[max_score_idx] < self.score_threshold:
+                    if _verif_trace is not None:
+                        _verif_trace.step(self, scores, None)
                     return None
 
             if self.score_threshold_type == "relative":
                 if scores[max_score_idx] / self.first_score_ < self.score_threshold:
+                    if _verif_trace is not None:
+                        _verif_trace.step(self, scores, None)
                     return None
 
+        if _verif_trace is not None:
+            _verif_trace.step(self, scores, max_score_idx)
         return max_score_idx
 
     def _update_post_selection(self, X, y, last_selected):
